@@ -209,13 +209,18 @@ func (fr *Frame) execInstr(in ssa.Instruction) bool {
 	switch x := in.(type) {
 	case *ssa.DebugRef:
 		// remember the current value of named local variables for contract expressions
-		if !x.IsAddr {
-			if id, ok := x.Expr.(*ast.Ident); ok && fr.depth == 0 {
-				if fr.debugVals == nil {
-					fr.debugVals = map[string]Val{}
-				}
+		if !x.IsAddr && fr.depth == 0 {
+			if fr.debugVals == nil {
+				fr.debugVals = map[string]Val{}
+			}
+			if id, ok := x.Expr.(*ast.Ident); ok {
 				if v, ok := fr.vals[x.X]; ok {
 					fr.debugVals[id.Name] = v
+				}
+			} else if name, ok := fr.e.L.assignedName(fr.fn, x.Expr); ok {
+				// the right-hand side of `name := expr` / `name = expr`
+				if v, ok := fr.vals[x.X]; ok {
+					fr.debugVals[name] = v
 				}
 			}
 		}
@@ -548,7 +553,7 @@ func (fr *Frame) execIndexAddr(x *ssa.IndexAddr) {
 	switch u := x.X.Type().Underlying().(type) {
 	case *types.Slice:
 		e.check("bounds", fr.anchor(x), fr.pc, mkAnd(app("bvsle", bvLitI(64, 0), idx), app("bvslt", idx, c.sLen())), pos, "slice index")
-		abs := app("bvadd", c.sOff(), idx)
+		abs := bvAdd(c.sOff(), idx)
 		if isAggregate(u.Elem()) {
 			fr.set(x, Val{S: e.elemRef(u.Elem(), c.sBase(), abs), NN: true})
 		} else {
@@ -589,7 +594,7 @@ func (fr *Frame) execSlice(x *ssa.Slice) {
 		hi := get(x.High, c.sLen())
 		mx := get(x.Max, c.sCap())
 		e.check("bounds", fr.anchor(x), fr.pc, mkAnd(app("bvsle", zero, lo), app("bvsle", lo, hi), app("bvsle", hi, mx), app("bvsle", mx, c.sCap())), pos, "slice bounds")
-		v := mkSlice(x.Type(), c.sBase(), app("bvadd", c.sOff(), lo), app("bvsub", hi, lo), app("bvsub", mx, lo))
+		v := mkSlice(x.Type(), c.sBase(), bvAdd(c.sOff(), lo), bvSub(hi, lo), bvSub(mx, lo))
 		fr.set(x, v)
 	case *types.Basic: // string
 		lo := get(x.Low, zero)
@@ -604,7 +609,7 @@ func (fr *Frame) execSlice(x *ssa.Slice) {
 		hi := get(x.High, n)
 		mx := get(x.Max, n)
 		e.check("bounds", fr.anchor(x), fr.pc, mkAnd(app("bvsle", zero, lo), app("bvsle", lo, hi), app("bvsle", hi, mx), app("bvsle", mx, n)), pos, "array slice bounds")
-		v := mkSlice(x.Type(), c.S, lo, app("bvsub", hi, lo), app("bvsub", mx, lo))
+		v := mkSlice(x.Type(), c.S, lo, bvSub(hi, lo), bvSub(mx, lo))
 		v.NN = true
 		fr.set(x, v)
 	}
@@ -621,7 +626,7 @@ func (e *Exec) substr(s, lo, hi, pc string) string {
 	t := app("ssub", s, lo, hi)
 	n := e.fresh("sub", sStr)
 	e.assume(mkEq(n, t))
-	e.assume(mkImp(pc, mkEq(app("slen", n), app("bvsub", hi, lo))))
+	e.assume(mkImp(pc, mkEq(app("slen", n), bvSub(hi, lo))))
 	e.strInv(n, pc)
 	return n
 }
@@ -643,6 +648,13 @@ func (fr *Frame) binop(in ssa.Instruction, op token.Token, a, b Val) Val {
 		return e.freshVal(resultTypeOf(in), "binop", fr.pc)
 	}
 	srt := scalarSort(T)
+	if (srt == sLst || srt == sIface) && (op == token.EQL || op == token.NEQ) {
+		eq := mkEq(a.S, b.S)
+		if op == token.NEQ {
+			eq = mkNot(eq)
+		}
+		return Val{T: tBool, S: eq}
+	}
 	switch srt {
 	case sBool:
 		switch op {
@@ -791,7 +803,8 @@ func (e *Exec) concat(a, b, pc string) string {
 	}
 	n := e.fresh("cat", sStr)
 	e.assume(mkEq(n, app("sconcat", a, b)))
-	e.assume(mkEq(app("slen", n), app("bvadd", app("slen", a), app("slen", b))))
+	e.assume(mkEq(app("slen", n), bvAdd(app("slen", a), app("slen", b))))
+	e.assume(mkAnd(mkImp(mkEq(a, "str.empty"), mkEq(n, b)), mkImp(mkEq(b, "str.empty"), mkEq(n, a))))
 	e.strInv(n, pc)
 	return n
 }
@@ -819,6 +832,12 @@ func (fr *Frame) execConvert(x *ssa.Convert) {
 		arr := e.heapGet(fr.st, key, srt)
 		content := e.fresh("bytes_of_str", arrSort(sBV64, bvSort(8)))
 		e.defArray(content, "i!s", app("sat", v.S, "i!s"))
+		// built-in fact: the string of the bytes of s is s
+		e.once("sfrom", func() {
+			e.emit("(declare-fun sfrom ((Array (_ BitVec 64) (_ BitVec 8)) (_ BitVec 64) (_ BitVec 64)) Str)")
+			e.emit("(assert (forall ((a (Array (_ BitVec 64) (_ BitVec 8))) (o (_ BitVec 64)) (l (_ BitVec 64)) (i (_ BitVec 64))) (! (= (sat (sfrom a o l) i) (select a (bvadd o i))) :pattern ((sat (sfrom a o l) i)))))")
+		})
+		e.assume(mkEq(app("sfrom", content, bvLitI(64, 0), app("slen", v.S)), v.S))
 		e.heapSet(fr.st, key, srt, sto(arr, r, content))
 		ln := app("slen", v.S)
 		sl := mkSlice(to, r, bvLitI(64, 0), ln, ln)
